@@ -82,21 +82,27 @@ where
                 .await
                 .map_err(|err| (None, OrdererError::OrdererStore(err)))?
             {
+                // Load the operation while the transaction is still open. If this future gets
+                // dropped at any await point before the commit went through (for example by the
+                // buffered stream layer when new input arrives first), the permit rolls back and
+                // the item stays in the "ready" queue instead of getting lost.
+                let operation = match self
+                    .store
+                    .get_operation_tx(&id)
+                    .await
+                    .map_err(OrdererError::OperationStore)
+                {
+                    Ok(Some(operation)) => operation,
+                    Ok(None) => return Err((None, OrdererError::StoreInconsistency(id))),
+                    Err(err) => return Err((None, err)),
+                };
+
                 self.store
                     .commit(permit)
                     .await
                     .map_err(|err| (None, OrdererError::Transaction(err)))?;
 
-                return match self
-                    .store
-                    .get_operation(&id)
-                    .await
-                    .map_err(OrdererError::OperationStore)
-                {
-                    Ok(Some(operation)) => Ok(operation),
-                    Ok(None) => Err((None, OrdererError::StoreInconsistency(id))),
-                    Err(err) => Err((None, err)),
-                };
+                return Ok(operation);
             }
 
             self.notify.notified().await;
